@@ -203,6 +203,48 @@ Theorem C04_size_hint_ordered : forall dcf rackf (g : ring N) pre t s dc,
    <= snd (rs_ordered_hint dcf rackf g pre t r))%nat.
 Proof. exact ordered_hint_bounds. Qed.
 
+(* the driver's remaining property predicates [views_ok] (size, nth, choose, choose_filtered,
+   interleaved next/nth, get_token_endpoints all describe the iterated duplicate-free list) and
+   [precomputed_ok]: what they mean, and that the model satisfies them *)
+Theorem C04_views_ok_sound : forall len iter nth choose cf cfpred opsl ep,
+  views_ok len iter nth choose cf cfpred opsl ep = true ->
+  len = List.length iter /\ NoDup iter /\
+  (forall k, (k < List.length nth)%nat -> nth_error nth k = Some (nth_error iter k)) /\
+  List.length choose = len /\ (forall o, In o choose -> exists x, o = Some x /\ In x iter) /\
+  match cf with
+  | Some x => In x iter /\ cfpred x = true
+  | None => forall x, In x iter -> cfpred x = false
+  end /\
+  (forall ops out, In (ops, out) opsl -> out = list_run ops iter) /\
+  match ep with
+  | Some l => NoDup l /\ (forall x, In x l <-> In x iter)
+  | None => True
+  end.
+Proof. exact views_ok_sound. Qed.
+
+Theorem C04_precomputed_ok_sound : forall np iter,
+  precomputed_ok np iter = true -> NoDup np /\ NoDup iter /\ (forall x, In x np <-> In x iter).
+Proof. exact precomputed_ok_sound. Qed.
+
+Theorem C04_views_ok_model : forall dcf rackf (g : ring N) pre t s dc n cf cfpred opss,
+  sorted_weak g -> nts_keys_ok s ->
+  let r := replicas_for dcf rackf g pre t s dc in
+  let iter := rs_iter dcf rackf g pre t r in
+  match cf with
+  | Some x => In x iter /\ cfpred x = true
+  | None => forall x, In x iter -> cfpred x = false
+  end ->
+  views_ok (rs_len dcf g r) iter (map (rs_nth dcf rackf g pre t r) (seq 0 n))
+           (map (rs_choose dcf rackf g pre t r) (seq 0 (rs_len dcf g r))) cf cfpred
+           (map (fun ops => (ops, rs_run dcf rackf g pre t r ops)) opss) (Some iter) = true.
+Proof. exact views_model. Qed.
+
+Theorem C04_precomputed_ok_model : forall dcf rackf (g : ring N) pre pre' t s dc,
+  sorted_weak g ->
+  precomputed_ok (rs_iter dcf rackf g pre' t (replicas_for dcf rackf g pre' t s dc))
+                 (rs_iter dcf rackf g pre t (replicas_for dcf rackf g pre t s dc)) = true.
+Proof. exact precomputed_model. Qed.
+
 (* with_computed_shard: every replica a view yields is paired with [shard_of] of its node's
    sharder applied to the token — C11's model function, for which C11_shard_spec (= ScyllaDB's
    algorithm) and C11_shard_lt (< nr_shards) are proved in Props/C11.v — and with 0 for a node
@@ -325,6 +367,20 @@ Example C04_ex_tablets :
   map fst (ts_run (ts_for [t1; t2] 7 None) [TNext; TNth 1; TNext] 0) = [Some (3, 1); Some (2, 5); None]%N.
 Proof. repeat split; vm_compute; reflexivity. Qed.
 
+Example C04_ex_views_ok :
+  let odd := fun n : N => N.odd n in
+  let ops := [INext; INth 1] in
+  views_ok 3 [6; 1; 3]%N [Some 6; Some 1; Some 3; None]%N [Some 6; Some 1; Some 3]%N (Some 3%N) odd [(ops, [Some 6; Some 3]%N)] (Some [3; 1; 6]%N) = true /\
+  views_ok 2 [6; 1; 3]%N [Some 6; Some 1; Some 3; None]%N [Some 6; Some 1; Some 3]%N (Some 3%N) odd [] None = false /\   (* len *)
+  views_ok 3 [6; 1; 3]%N [Some 6; Some 3; Some 1; None]%N [Some 6; Some 1; Some 3]%N (Some 3%N) odd [] None = false /\   (* nth *)
+  views_ok 3 [6; 1; 3]%N [Some 6; Some 1; Some 3; None]%N [Some 6; Some 1; Some 4]%N (Some 3%N) odd [] None = false /\   (* choose *)
+  views_ok 3 [6; 1; 3]%N [] [Some 6; Some 1; Some 3]%N (Some 6%N) odd [] None = false /\                               (* choose_filtered: predicate *)
+  views_ok 3 [6; 1; 3]%N [] [Some 6; Some 1; Some 3]%N None odd [] None = false /\                                      (* choose_filtered: None although 1, 3 qualify *)
+  views_ok 3 [6; 1; 3]%N [] [Some 6; Some 1; Some 3]%N (Some 1%N) odd [(ops, [Some 6; Some 1]%N)] None = false /\        (* interleaving *)
+  views_ok 3 [6; 1; 3]%N [] [Some 6; Some 1; Some 3]%N (Some 1%N) odd [] (Some [6; 1]%N) = false /\                     (* endpoints *)
+  precomputed_ok [1; 6]%N [6; 1]%N = true /\ precomputed_ok [2; 3]%N [1; 2]%N = false.
+Proof. repeat split; vm_compute; reflexivity. Qed.
+
 Example C04_ex_ops :
   let pre := [Simple 2] in
   let s := replicas_for ex_dcf ex_rackf ex_g pre 160 (NTS [(1%N, 3%nat); (2%N, 3%nat)]) None in
@@ -363,6 +419,10 @@ Print Assumptions C04_views_ordered.
 Print Assumptions C04_views_ordered_perm.
 Print Assumptions C04_views_ops.
 Print Assumptions C04_shards.
+Print Assumptions C04_views_ok_sound.
+Print Assumptions C04_precomputed_ok_sound.
+Print Assumptions C04_views_ok_model.
+Print Assumptions C04_precomputed_ok_model.
 Print Assumptions C04_views_tablets.
 Print Assumptions C04_views_tablets_ops.
 Print Assumptions C04_tablets_dc_filter.
